@@ -218,13 +218,13 @@ Theorem accepted_blocks_graph i e u bl st' : J i -> elinv (i_st i) -> V (i_st i)
   process cap eb (aput (a_id e) e (i_es i)) (i_st i) e = (Ok u, bl, st') ->
   let es1 := aput (a_id e) e (i_es i) in
   let E' := (a_id e, vev (l_vals (i_st i)) e) :: evs (l_idx (i_st i)) in
-  forall b, In b bl -> b_atropos b <> 0 ->
+  forall b, In b bl ->
     (* the Atropos is an accepted event (possibly the one just processed) occupying a root slot of the block's frame *)
     (exists e0, (e0 = e \/ In e0 (acc_events i)) /\ a_id e0 = b_atropos b /\ spf_in es1 e0 < b_frame b <= a_frame e0) /\
     (* the cheaters are the validators with a visible seq-fork below the Atropos, in canonical order *)
     b_cheaters b = visible_forkers (l_vals (i_st i)) E' (b_atropos b).
 Proof.
-  intros HJ HI HV G Hwf E es1 E' b Hb Hnz.
+  intros HJ HI HV G Hwf E es1 E' b Hb.
   destruct (guard_none i e G) as (Gn & Gep & Gp & Gc).
   destruct (process_ok_shape cap _ _ _ _ _ _ _ E) as (s' & spf & c1 & Hadd & Hspf & Hle & Hpos & r2 & HE). cbn zeta in HE.
   destruct (add_preserves _ _ _ (j_vinv i HJ) Hwf) as (s'' & Hadd' & I' & Hevs). rewrite Hadd in Hadd'. inversion Hadd'; subst s''. clear Hadd'.
@@ -240,14 +240,14 @@ Proof.
     - rewrite add_roots_iff by exact Hle. cbn [l_roots set_fcc set_idx]. reflexivity. }
   assert (V2' : V st2).
   { destruct HV as [H1 H2]. unfold V, goodv, names_root in *. rewrite El2.
-    split; intros k vt Hin Y Z; [destruct (H1 _ _ Hin Y Z) as [r0 [A B]] | destruct (H2 _ _ Hin Y Z) as [r0 [A B]]];
+    split; intros k vt Hin Y; [destruct (H1 _ _ Hin Y) as [r0 [A B]] | destruct (H2 _ _ Hin Y) as [r0 [A B]]];
       exists r0; (split; [apply R2; left; exact A | exact B]). }
   destruct (handle_election_rooted cap eb es1 e _ _ _ _ _ _ V2' I2 HE) as [AR _].
   pose proof (handle_election_blocks cap eb es1 e _ _ _ _ _ _ I2 HE b Hb) as (st1 & f & a & sl & stx & (SV1 & SV2 & SV3 & SV4) & Hf & OF).
   destruct (on_frame_decided_block _ _ _ _ _ _ _ _ OF) as (Bc & Ba & Bf).
   (* the root *)
   assert (Hroot : exists e0, (e0 = e \/ In e0 (acc_events i)) /\ a_id e0 = b_atropos b /\ spf_in es1 e0 < b_frame b <= a_frame e0).
-  { destruct (AR b Hb Hnz) as [r [Hr [Hrf Hri]]]. apply R2 in Hr as [Hr|[g [Hg ->]]].
+  { destruct (AR b Hb) as [r [Hr [Hrf Hri]]]. apply R2 in Hr as [Hr|[g [Hg ->]]].
     - apply (j_roots i HJ) in Hr as [e0 [Hin [Hg0 [[S1 S2] [S3 S4]]]]].
       exists e0. split; [right; apply (acc_events_in i e0 HJ); auto|]. split; [congruence|].
       assert (Hs : spf_in es1 e0 = spf_in (i_es i) e0).
@@ -350,7 +350,7 @@ Proof.
     - rewrite add_roots_iff by exact F2. cbn [l_roots set_fcc set_idx]. reflexivity. }
   assert (V2 : V st2).
   { destruct HV as [H1 H2]. unfold V, goodv, names_root in *. rewrite El2.
-    split; intros k vt Hin Y Z; [destruct (H1 _ _ Hin Y Z) as [r0 [A B]] | destruct (H2 _ _ Hin Y Z) as [r0 [A B]]];
+    split; intros k vt Hin Y; [destruct (H1 _ _ Hin Y) as [r0 [A B]] | destruct (H2 _ _ Hin Y) as [r0 [A B]]];
       exists r0; (split; [apply R2; left; exact A | exact B]). }
   destruct (handle_election cap eb (S (S (N.to_nat (a_frame e - spf)))) es st2 e (spf + 1) []) as [[r2 bl2] st3] eqn:HE.
   destruct (handle_election_rooted cap eb es e _ _ _ _ _ _ V2 I2 HE) as [AR VV].
